@@ -114,7 +114,8 @@ impl<T: Read> Input for ReadInputSource<T> {
         self.skip_while(|ch| ch == ' ')?;
         // read until comma or eol
         self.read_until(|ch| ch == ',' || is_cr_lf(ch))
-            .map(|s| s.trim().to_owned())
+            // only blanks: a tab, or a no-break space (character 160), is part of the field
+            .map(|s| s.trim_end_matches(' ').to_owned())
     }
 
     fn line_input(&mut self) -> std::io::Result<String> {
